@@ -5,7 +5,7 @@ From DV Require Import Model.Base Model.NameCheck Model.Parser Model.Header Mode
   Proofs.ParseComplete Proofs.NameIff Proofs.NameCheckTotal Proofs.ReadersAgree Proofs.ReadersLabels Proofs.HeaderBits Proofs.QuestionSpec
   Proofs.WalkValues Proofs.SetTtl Proofs.WalkSkip Proofs.UncompressSpec Proofs.PlainWf Proofs.InsertLemmas Proofs.EdnsFacts Proofs.EdnsPos
   Proofs.EdnsPlain Proofs.InsertSpec Proofs.HeaderInv Proofs.Chain Proofs.SetTtlInv Proofs.DeleteInv Proofs.SetNameInv Proofs.Totality
-  Proofs.WalkInv Proofs.CursorHist Proofs.DecompressFirst.
+  Proofs.WalkInv Proofs.CursorHist Proofs.DecompressFirst Proofs.RenameSpec Proofs.CompressSize.
 From Coq Require Import ZifyBool ZifyNat ZifyN.
 
 Lemma recompute_rr_ok v1 it1 s' : m_recompute_rr (v1, it1) = (s', Ok tt) ->
@@ -38,13 +38,13 @@ Proof.
          end; try (inversion H; fail); inversion H; subst; cbn [snd it_set it_section it_rrs_left it_offset]; repeat split; try reflexivity; try congruence.
 Qed.
 
-Theorem rename_keeps_cursor : forall nm v sec l1 r x l2 n s' qls qt lA lN lR,
+Theorem rename_keeps_cursor_full : forall nm v sec l1 r x l2 n s' qls qt lA lN lR,
   dinv v -> bytes_ok nm -> reading (pp_packet v) qls qt lA lN lR -> sec = SAnswer \/ sec = SNameServers \/ sec = SAdditional ->
   sec_list sec lA lN lR = l1 ++ (r, x) :: l2 -> is_opt r = false ->
   m_set_raw_name nm (v, cur_on sec r n) = (s', Ok tt) ->
   exists lA' lN' lR' l1' r' l2' ls,
     dinv (fst s') /\ reading (pp_packet (fst s')) qls qt lA' lN' lR' /\ sec_list sec lA' lN' lR' = l1' ++ (r', x) :: l2' /\
-    map unpl l1' = map unpl l1 /\ map unpl l2' = map unpl l2 /\ unpl (r', x) = unpl (with_labels (r, x) ls) /\ name_ok ls /\
+    map unpl l1' = map unpl l1 /\ map unpl l2' = map unpl l2 /\ unpl (r', x) = unpl (with_labels (r, x) ls) /\ name_ok ls /\ (exists n0, check_compressed_name nm 0 = Ok n0 /\ firstn n0 nm = wire_of_labels ls) /\
     rv_off r' = rv_off r /\ snd s' = cur_on sec r' n.
 Proof.
   intros nm v sec l1 r x l2 n s' qls qt lA lN lR Hd Hbnm Rd Hsec El Hno Hrun.
@@ -147,9 +147,25 @@ Proof.
   { assert (Hq : @Ok nat (rv_name_end r' + 10 + rv_rdlen r') = Ok onext) by (rewrite <- E2, Ene; exact Erd). injection Hq as Hq. exact Hq. }
   exists (place o1 A'), (place (o1 + length (cat A')) Nn'), (place (o1 + length (cat A') + length (cat Nn')) R'), l1', r', l2', ls.
   split; [exact Hd'|]. split; [exact Rd'|]. split; [exact El'|]. split; [exact U1|]. split; [exact U2|].
-  split; [unfold r', unpl, with_labels; cbn [fst snd]; rewrite Er; reflexivity|]. split; [exact Hls|]. split; [exact Eor|].
+  split; [unfold r', unpl, with_labels; cbn [fst snd]; rewrite Er; reflexivity|]. split; [exact Hls|]. split; [exists n0; split; [exact Hck|exact Hseg]|]. split; [exact Eor|].
   unfold it_set, cur_on. rewrite Hs1, Hl1, Eor, <- Eon, <- Ene. reflexivity.
 Qed.
+
+Theorem rename_keeps_cursor : forall nm v sec l1 r x l2 n s' qls qt lA lN lR,
+  dinv v -> bytes_ok nm -> reading (pp_packet v) qls qt lA lN lR -> sec = SAnswer \/ sec = SNameServers \/ sec = SAdditional ->
+  sec_list sec lA lN lR = l1 ++ (r, x) :: l2 -> is_opt r = false ->
+  m_set_raw_name nm (v, cur_on sec r n) = (s', Ok tt) ->
+  exists lA' lN' lR' l1' r' l2' ls,
+    dinv (fst s') /\ reading (pp_packet (fst s')) qls qt lA' lN' lR' /\ sec_list sec lA' lN' lR' = l1' ++ (r', x) :: l2' /\
+    map unpl l1' = map unpl l1 /\ map unpl l2' = map unpl l2 /\ unpl (r', x) = unpl (with_labels (r, x) ls) /\ name_ok ls /\
+    rv_off r' = rv_off r /\ snd s' = cur_on sec r' n.
+Proof.
+  intros nm v sec l1 r x l2 n s' qls qt lA lN lR Hd Hbnm Rd Hsec El Hno Hrun.
+  destruct (rename_keeps_cursor_full nm v sec l1 r x l2 n s' qls qt lA lN lR Hd Hbnm Rd Hsec El Hno Hrun)
+    as (lA' & lN' & lR' & l1' & r' & l2' & ls & H1 & H2 & H3 & H4 & H5 & H6 & H7 & _ & H8 & H9).
+  exists lA', lN', lR', l1', r', l2', ls. auto 10.
+Qed.
+
 
 (** Advancing the cursor that made the change yields the record that followed the renamed one (the same record,
     possibly at a shifted position), or the end of the section when it was the last. *)
@@ -169,4 +185,52 @@ Proof.
   exists lA', lN', lR', l1', r', l2'. repeat (split; [assumption|]).
   rewrite Ecur. assert (Hl : length l2 = length l2') by (rewrite <- (map_length unpl l2), <- U2, map_length; reflexivity).
   rewrite Hl. exact (next_advance (fst s') qls qt lA' lN' lR' sec l1' (r', x) l2' Hd' Rd' Hsec El').
+Qed.
+
+(** ** Reading the name back (C14): a record given the wire name of the labels [ls] through [set_raw_name] reads back, through
+    the same cursor, as those labels - raw, and as lower-cased dotted text *)
+Lemma wire_prefix_inj : forall a b n, Forall (fun l : bytes => l <> []) a -> Forall (fun l : bytes => l <> []) b ->
+  firstn n (wire_of_labels a) = wire_of_labels b -> a = b.
+Proof.
+  induction a as [|l a IH]; intros b n Ha Hbn H.
+  - destruct b as [|m b]; [reflexivity|exfalso]. rewrite wire_nil, wire_of_labels_cons in H.
+    apply (f_equal (@length _)) in H. rewrite firstn_length in H. cbn [length] in H. rewrite app_length, wire_length in H. lia.
+  - rewrite wire_of_labels_cons in H. destruct b as [|m b].
+    + exfalso. rewrite wire_nil in H. destruct n as [|n]; [discriminate|]. cbn [firstn] in H. injection H as H0 _.
+      pose proof (Forall_inv Ha) as Hl. destruct l; [contradiction|cbn [length] in H0; lia].
+    + rewrite wire_of_labels_cons in H. destruct n as [|n]; [discriminate|]. cbn [firstn] in H. injection H as H0 H1.
+      assert (Ll : length l = length m) by lia.
+      assert (Hn : length m <= n).
+      { apply (f_equal (@length _)) in H1. rewrite firstn_length, !app_length in H1. lia. }
+      rewrite firstn_app in H1. rewrite firstn_all2 in H1 by lia.
+      apply app_eq_len in H1; [|exact Ll]. destruct H1 as [-> H1].
+      f_equal. apply (IH b (n - length m)); [exact (Forall_inv_tail Ha)|exact (Forall_inv_tail Hbn)|exact H1].
+Qed.
+
+Theorem set_name_reads_back : forall ls v sec l1 r x l2 n s' qls qt lA lN lR,
+  dinv v -> Forall (fun l : bytes => l <> []) ls -> bytes_ok (wire_of_labels ls) ->
+  reading (pp_packet v) qls qt lA lN lR -> sec = SAnswer \/ sec = SNameServers \/ sec = SAdditional ->
+  sec_list sec lA lN lR = l1 ++ (r, x) :: l2 -> is_opt r = false ->
+  m_set_raw_name (wire_of_labels ls) (v, cur_on sec r n) = (s', Ok tt) ->
+  it_name (fst s') (snd s') = Ok (ascii_lowercase (dotted ls)) /\
+  it_copy_raw_name (fst s') (snd s') = Ok (wire_of_labels ls, length (wire_of_labels ls)).
+Proof.
+  intros ls v sec l1 r x l2 n s' qls qt lA lN lR Hd Hne Hbw Rd Hsec El Hno Hrun.
+  destruct (rename_keeps_cursor_full _ v sec l1 r x l2 n s' qls qt lA lN lR Hd Hbw Rd Hsec El Hno Hrun)
+    as (lA' & lN' & lR' & l1' & r' & l2' & ls0 & Hd' & Rd' & El' & _ & _ & Hu & (Hok0 & _ & _) & (n0 & _ & Hseg) & _ & Ecur).
+  assert (E0 : ls = ls0).
+  { apply (wire_prefix_inj ls ls0 n0 Hne); [|exact Hseg]. eapply Forall_impl; [|exact Hok0]. intros l (Hl & _). exact Hl. }
+  subst ls0.
+  assert (Elab : rv_labels r' = ls) by (apply (f_equal (fun rx => rv_labels (fst rx))) in Hu; exact Hu).
+  assert (Hin' : In (r', x) (lA' ++ lN' ++ lR')).
+  { assert (Hi : In (r', x) (sec_list sec lA' lN' lR')) by (rewrite El'; apply in_or_app; right; left; reflexivity).
+    destruct Hsec as [->|[->| ->]]; cbn [sec_list] in Hi; repeat (apply in_or_app; first [left; exact Hi|right]); exact Hi. }
+  destruct (reading_record_in _ _ _ _ _ _ Rd' r' x Hin') as (_ & e' & Hrec').
+  pose proof (record_at_end _ _ _ Hrec') as (_ & Hlt & _).
+  destruct Hrec' as (Hcn & _). rewrite Elab in Hcn.
+  pose proof (di_bytes _ Hd') as Hb'.
+  rewrite Ecur. unfold it_name, it_copy_raw_name, cur_on. cbn [it_offset it_name_end unwrap bind].
+  destruct (rv_name_end r' <=? rv_off r') eqn:E; [lia|].
+  rewrite (raw_name_to_str_dotted _ _ _ _ Hb' Hcn). cbn [bind]. split; [reflexivity|].
+  rewrite (copy_uncompressed_name_labels _ Hb' _ _ _ [] Hcn). reflexivity.
 Qed.
